@@ -26,7 +26,8 @@ TRUSTED_EXTRA = [
     "C08: library routines of src/builtins that do not touch a Value (string/number helpers) are treated as non-recursive leaves",
 ]
 ASSUMPTIONS = [
-    "a guard's check bounds the stack used by the frames outside its own frame (the probe of check_stack lies inside eval_expr's frame)",
+    "a guard's check bounds the stack used by the frames between run_inner's anchor (stack_base) and the guard's own frame (the probe of check_stack lies inside eval_expr's frame); "
+    "what lies above run_inner's anchor and the error-report path are headroom",
     "structural edge exec_stmt->exec_block_with_flow is taken at most (nesting depth of the source) times between two guards; "
     "data edges at most (nesting depth of the value) times",
     "frame costs are bounded by a per-function maximum M that is only estimated from (budget / recursion depth reached)",
